@@ -2,14 +2,16 @@
  * @file async_runtime_epoll.c
  * @brief Linux epoll-based async runtime implementation
  * 
- * Uses epoll for efficient I/O multiplexing and eventfd for worker completion notifications.
+ * Uses epoll for efficient I/O multiplexing and a non-blocking pipe for worker completion notifications
+ * (one 8-byte record per notification: an eventfd would add the values of notifications that pile up
+ * between two waits into one).
  */
 
 #if defined(__linux__)
 
 #include "async/async_runtime.h"
 #include <sys/epoll.h>
-#include <sys/eventfd.h>
+#include <fcntl.h>
 #include <sys/stat.h>
 #include <unistd.h>
 #include <stdlib.h>
@@ -20,7 +22,8 @@
 
 struct async_runtime_s {
     int epoll_fd;
-    int event_fd;  /* For worker completions */
+    int event_fd;  /* For worker completions: read end of the notification pipe */
+    int event_wfd; /* write end of the notification pipe */
     console_type_t console_type;  /* Detected console type */
 };
 
@@ -54,19 +57,24 @@ async_runtime_t* async_runtime_init(void) {
         return NULL;
     }
     
-    /* Create eventfd for worker notifications */
-    runtime->event_fd = eventfd(0, EFD_NONBLOCK);
-    if (runtime->event_fd < 0) {
+    /* Create the notification pipe for worker notifications */
+    int notify_pipe[2];
+    if (pipe(notify_pipe) < 0) {
         close(runtime->epoll_fd);
         free(runtime);
         return NULL;
     }
+    fcntl(notify_pipe[0], F_SETFL, fcntl(notify_pipe[0], F_GETFL, 0) | O_NONBLOCK);
+    fcntl(notify_pipe[1], F_SETFL, fcntl(notify_pipe[1], F_GETFL, 0) | O_NONBLOCK);
+    runtime->event_fd = notify_pipe[0];
+    runtime->event_wfd = notify_pipe[1];
     
-    /* Add eventfd to epoll */
+    /* Add the notification pipe to epoll */
     struct epoll_event ev = {0};
     ev.events = EPOLLIN;
     ev.data.fd = runtime->event_fd;
     if (epoll_ctl(runtime->epoll_fd, EPOLL_CTL_ADD, runtime->event_fd, &ev) < 0) {
+        close(runtime->event_wfd);
         close(runtime->event_fd);
         close(runtime->epoll_fd);
         free(runtime);
@@ -80,6 +88,7 @@ void async_runtime_deinit(async_runtime_t* runtime) {
     if (!runtime) return;
     
     if (runtime->event_fd >= 0) {
+        close(runtime->event_wfd);
         close(runtime->event_fd);
     }
     
@@ -120,7 +129,7 @@ int async_runtime_wakeup(async_runtime_t* runtime) {
     if (!runtime || runtime->event_fd < 0) return -1;
     
     uint64_t val = 1;
-    ssize_t n = write(runtime->event_fd, &val, sizeof(val));
+    ssize_t n = write(runtime->event_wfd, &val, sizeof(val));
     return (n == sizeof(val)) ? 0 : -1;
 }
 
@@ -146,20 +155,18 @@ int async_runtime_wait(async_runtime_t* runtime, io_event_t* events,
     
     int event_count = 0;
     for (int i = 0; i < result && event_count < max_events; i++) {
-        /* Check if this is the eventfd */
+        /* Check if this is the notification pipe */
         if (epoll_events[i].data.fd == runtime->event_fd) {
-            /* Drain eventfd and decode worker completions */
+            /* Read one record per notification; what does not fit stays in the pipe for the next wait */
             uint64_t val;
-            while (read(runtime->event_fd, &val, sizeof(val)) == sizeof(val)) {
-                if (event_count < max_events) {
-                    events[event_count].fd = -1;
-                    events[event_count].completion_key = (uintptr_t)(val >> 32);
-                    events[event_count].context = NULL;
-                    events[event_count].event_type = EVENT_READ;
-                    events[event_count].bytes_transferred = (int)(val & 0xFFFFFFFF);
-                    events[event_count].buffer = NULL;
-                    event_count++;
-                }
+            while (event_count < max_events && read(runtime->event_fd, &val, sizeof(val)) == sizeof(val)) {
+                events[event_count].fd = -1;
+                events[event_count].completion_key = (uintptr_t)(val >> 32);
+                events[event_count].context = NULL;
+                events[event_count].event_type = EVENT_READ;
+                events[event_count].bytes_transferred = (int)(val & 0xFFFFFFFF);
+                events[event_count].buffer = NULL;
+                event_count++;
             }
         } else {
             /* Regular I/O event */
@@ -179,9 +186,9 @@ int async_runtime_wait(async_runtime_t* runtime, io_event_t* events,
 int async_runtime_post_completion(async_runtime_t* runtime, uintptr_t completion_key, uintptr_t data) {
     if (!runtime || runtime->event_fd < 0) return -1;
     
-    /* Write to eventfd to wake up epoll_wait */
+    /* Write one record to the notification pipe to wake up epoll_wait */
     uint64_t val = (((uint64_t)completion_key) << 32) | (data & 0xFFFFFFFF);
-    ssize_t n = write(runtime->event_fd, &val, sizeof(val));
+    ssize_t n = write(runtime->event_wfd, &val, sizeof(val));
     
     return (n == sizeof(val)) ? 0 : -1;
 }
